@@ -658,6 +658,12 @@ func (v *FV) epochGet(e *Epoch, name string) Term {
 	case 0:
 		t = fmt.Sprintf("%s@%d", name, e.id)
 		v.emit(fmt.Sprintf("(declare-const %s %s)", t, v.arrSort(name)))
+		if v.arrSort(name) == "(Array Int Slice)" {
+			// every slice value stored in the heap is well formed (a property of Go values)
+			le := v.cmpOp("<=", true)
+			z := v.idxLit(0)
+			v.emit(fmt.Sprintf("(assert (forall ((r Int)) (! (and (%s %s (sl_off (select %s r))) (%s %s (sl_len (select %s r))) (%s (sl_len (select %s r)) (sl_cap (select %s r)))) :pattern ((select %s r)))))", le, z, t, le, z, t, le, t, t, t))
+		}
 		if e.initial && v.arrSort(name) == "(Array Int Slice)" {
 			v.emit(fmt.Sprintf("(assert (forall ((r Int)) (! (=> (<= r N0!) (<= (sl_arr (select %s r)) N0!)) :pattern ((select %s r)))))", t, t))
 		}
